@@ -27,6 +27,55 @@ type Task struct {
 	prio   int
 	seen   bool
 	steps  int
+	// outside: at its latest gate the task's call stack no longer contained the
+	// function named by Config.StackProbe
+	outside bool
+}
+
+var (
+	probeMu  sync.Mutex
+	probePCs = map[uintptr]bool{}
+)
+
+// stackHas reports whether any frame of the calling task's stack lies in a function
+// whose name contains sub.
+//
+//go:norace
+func stackHas(sub string) bool {
+	var pcs [48]uintptr
+	n := runtime.Callers(3, pcs[:])
+	probeMu.Lock()
+	defer probeMu.Unlock()
+	for _, pc := range pcs[:n] {
+		in, ok := probePCs[pc]
+		if !ok {
+			if f := runtime.FuncForPC(pc - 1); f != nil {
+				in = strings.Contains(f.Name(), sub)
+			}
+			probePCs[pc] = in
+		}
+		if in {
+			return true
+		}
+	}
+	return false
+}
+
+// CensusInside counts the live tasks spawned at a site containing sub that are still
+// inside the function named by Config.StackProbe (a task that has not reached a gate yet
+// counts as inside).
+//
+//go:norace
+func CensusInside(sub string) int {
+	n := 0
+	smu.Lock()
+	for _, t := range tasks {
+		if strings.Contains(t.Site, sub) && !t.outside {
+			n++
+		}
+	}
+	smu.Unlock()
+	return n
 }
 
 type gate struct {
@@ -36,7 +85,18 @@ type gate struct {
 	enabled func() bool
 	ch      chan int
 	held    time.Time // zero: not held
+	site    uint32    // hash of the parking call stack (only in site-yield runs)
+	judged  bool      // site-yield decision taken
+	yielded bool      // not offered to the scheduler while anything else can run
 }
+
+// site-yield mode (chosen per run from the tape): every pass through a call site whose
+// stack hash falls in the run's residue class may be deferred until no other task can
+// run at that instant. No clock moves: it is a pure scheduling choice, concentrated on
+// a few code sites per run instead of on step numbers.
+const yieldMod = 24
+
+var yieldOn bool
 
 type Config struct {
 	MaxSteps   int
@@ -61,6 +121,9 @@ type Config struct {
 	Strategy int
 	// Monitor runs in the driver whenever every task is parked or blocked.
 	Monitor func()
+	// StackProbe, if not empty, is a function-name substring: every gate records whether
+	// the parking task's stack still contains such a function (see CensusInside).
+	StackProbe string
 }
 
 type Result struct {
@@ -76,6 +139,7 @@ type Result struct {
 	Strategy  string
 	Holds     int
 	HoldTotal time.Duration
+	Yields    int
 	MaxTasks  int
 }
 
@@ -148,6 +212,20 @@ func GateN(kind string, n int, enabled func() bool) int {
 		return 0
 	}
 	g := &gate{t: t, kind: kind, n: n, enabled: enabled, ch: make(chan int, 1)}
+	if cfg.StackProbe != "" {
+		t.outside = !stackHas(cfg.StackProbe)
+	}
+	if yieldOn {
+		var pcs [5]uintptr
+		h := uint32(2166136261)
+		for _, pc := range pcs[:runtime.Callers(2, pcs[:])] {
+			for i := 0; i < 4; i++ {
+				h = (h ^ uint32(pc&0xff)) * 16777619
+				pc >>= 8
+			}
+		}
+		g.site = h
+	}
 	parkCh <- g
 	v := <-g.ch
 	RaceOn()
@@ -367,6 +445,11 @@ func Run(root func(), c Config, s *Tape) Result {
 	}
 	holdsLeft := cfg.Holds
 	lowPrio := 0
+	yieldOn = false
+	yieldTarget, yieldsLeft := uint32(0), 0
+	if S.Draw(3) == 2 {
+		yieldOn, yieldTarget, yieldsLeft = true, uint32(S.Draw(yieldMod)), 40
+	}
 
 	h := fnv.New64a()
 	il := fnv.New64a()
@@ -399,9 +482,17 @@ func Run(root func(), c Config, s *Tape) Result {
 			cfg.Monitor()
 		}
 		now := time.Now()
-		var en []*gate
+		var en, deferred []*gate
 		var nextHeld time.Time
 		for _, g := range parked {
+			if yieldOn && !g.judged {
+				g.judged = true
+				if g.t.ID != "0" && (g.site>>8)%yieldMod == yieldTarget && yieldsLeft > 0 && S.Draw(2) == 0 {
+					yieldsLeft--
+					res.Yields++
+					g.yielded = true
+				}
+			}
 			if !g.held.IsZero() {
 				if g.held.After(now) {
 					if nextHeld.IsZero() || g.held.Before(nextHeld) {
@@ -412,8 +503,19 @@ func Run(root func(), c Config, s *Tape) Result {
 				g.held = time.Time{}
 			}
 			if g.enabled == nil || g.enabled() {
+				if g.yielded {
+					deferred = append(deferred, g)
+					continue
+				}
 				en = append(en, g)
 			}
+		}
+		if len(en) == 0 && len(deferred) > 0 {
+			// nothing else can run at this instant: the deferred tasks go on
+			for _, g := range deferred {
+				g.yielded = false
+			}
+			en = deferred
 		}
 		if n := len(tasks); n > res.MaxTasks {
 			res.MaxTasks = n
